@@ -26,12 +26,17 @@ type refNode struct {
 
 type refWorld struct{ nodes []*refNode }
 
+var refStatic *refNode
+
 func newRefWorld() *refWorld {
-	st := &refNode{kind: "static", parent: -1, own: map[string]int{}}
-	for _, e := range staticEntries {
-		st.own[e.key] = e.val
+	if refStatic == nil {
+		// shared by all histories: the static loader is never written to
+		refStatic = &refNode{kind: "static", parent: -1, own: map[string]int{}}
+		for _, e := range staticEntries {
+			refStatic.own[e.key] = e.val
+		}
 	}
-	return &refWorld{nodes: []*refNode{st}}
+	return &refWorld{nodes: []*refNode{refStatic}}
 }
 
 func tsLookup(t *tsetInfo, n tname) (int, bool) {
@@ -171,6 +176,9 @@ func (w *refWorld) apply(o opT) string {
 		for w.nodes[t].kind == "typeset" {
 			t = w.nodes[t].parent
 		}
+		if t == 0 {
+			panic("generator error: definition into the shared static loader")
+		}
 		own := w.nodes[t].own
 		k := o.N.mapKey()
 		old, bound := own[k]
@@ -214,7 +222,7 @@ func (w *refWorld) apply(o opT) string {
 		ks := w.discover(o.L, o.P.onKey)
 		gs := make([]string, len(ks))
 		for i, k := range ks {
-			gs[i] = lib.GStr(k)
+			gs[i] = gKey(k)
 		}
 		return "RNames " + lib.GList(gs, "str")
 	}
